@@ -1,6 +1,8 @@
 package props
 
 import (
+	"time"
+
 	"verif/engine/internal/core"
 )
 
@@ -34,6 +36,7 @@ var c12Safety = []string{
 func c12(w *core.World, rep *core.Report) {
 	std(rep)
 	rep.Explain = "Every converter between identity octets and text carries a contract that states the text character by character (or the octets bit field by bit field) as defined by TS 23.003 / TS 24.501 9.11.3.4: BCD digit order and filler handling for MCC/MNC, MSIN, routing indicator and IMEI/IMEISV digits (unbounded lengths, quantified loop invariants), AMF identifier split 8/10/6, lower-case hexadecimal for AMF id and 5G-TMSI, decimal for the AMF set id and pointer getters, and the SUCI text with all five variable-length fields. Text-to-wire converters are verified once per legal text length with that length concrete (lencase) and once for all other lengths (must return an error). Round trips are lemma functions (verif_lemmas.go, build tag verif) composing two converters; they are verified modularly against the converters' contracts: AMF id (all 2^24), PLMN (all valid 2- and 3-digit MNC), 5G-GUTI both ways."
+	QuickTimeout = 40 * time.Second // the SUCI scheme-output clauses take up to 8 s alone; leave room under load
 	jobs := ContractJobs(w, rep, c12Contracts)
 	jobs = append(jobs, SafetyJobs(w, rep, c12Safety)...)
 	RunJobs(w, rep, jobs)
